@@ -70,7 +70,7 @@ def solve_one(job):
         except Exception: model = None
     return dict(key=key, result=result, backend=backend, model=model, log=log, wall=time.time() - t_all)
 
-def discharge(obls, axioms=(), timeout=60, canary_timeout=2, jobs=None, thorough=False, budgets=None):
+def discharge(obls, axioms=(), timeout=60, canary_timeout=4, jobs=None, thorough=False, budgets=None):
     """obls: list of Obligation.  Returns list of result dicts in the same order."""
     jobs = jobs or min(16, os.cpu_count() or 4)
     work = []
